@@ -6,6 +6,7 @@ import (
 	"encoding/json"
 	"fmt"
 	"net"
+	"runtime"
 	"os"
 	"strings"
 	"testing"
@@ -351,6 +352,26 @@ func checkPod(ps *podSpec, ops []string, r *vcore.Rec) *vcore.Failure {
 	for _, n := range w.Topo.Nodes {
 		nodes = append(nodes, *n.Object())
 	}
+	// other traffic of the same daemon while the pod is handled: another pod's IP comes and goes (a writer on the IPAM cache lock).
+	// A request that re-enters a read lock it already holds wedges the daemon as soon as such a writer queues in between.
+	stop, done := make(chan struct{}), make(chan struct{})
+	go func() {
+		defer close(done)
+		defer func() { _ = recover() }()
+		ipam := w.Plugin.GetIpam()
+		spare := net.ParseIP("10.0.70.8")
+		for {
+			select {
+			case <-stop:
+				return
+			default:
+			}
+			if ipam.AllocateSpecificIP("sts_other_o0_o0-0", spare, floatingip.Attr{}) == nil {
+				_ = ipam.Release("sts_other_o0_o0-0", spare)
+			}
+			runtime.Gosched()
+		}
+	}()
 	for _, op := range ops {
 		r.Class("op_" + op)
 		w.RunGuarded(func() {
@@ -385,6 +406,8 @@ func checkPod(ps *podSpec, ops []string, r *vcore.Rec) *vcore.Failure {
 			}
 		})
 	}
+	close(stop)
+	<-done // (a wedged daemon never lets the writer finish: the case watchdog reports the hang)
 	return followUp(x)
 }
 
